@@ -191,9 +191,13 @@ theorem alignStep_ok {o : CommonOpts} {P : Params} {ref est e1 : List (Pose Rat)
   · next k hk =>
     split at h
     · cases h
-    · injection h with h; subst h
-      rw [hfun (some k) hk]
-      cases k <;> simp [alignMode, Align.alignApply, Align.transformLeft, Align.scalePath, List.map_map, Function.comp_def]
+    · split at h
+      · cases h
+      · split at h
+        · cases h
+        · injection h with h; subst h
+          rw [hfun (some k) hk]
+          cases k <;> simp [alignMode, Align.alignApply, Align.transformLeft, Align.scalePath, List.map_map, Function.comp_def]
 
 theorem originStep_ok {o : CommonOpts} {ref e1 e2 : List (Pose Rat)}
     (h : originStep o ref e1 = .ok e2) : e2 = e1.map (Pose.mul (originT o ref e1)) := by
